@@ -1,5 +1,5 @@
 import Driver.Proto
-import JaxleyVerif.Model.SolveJaxley
+import JaxleyVerif.Model.SolveJaxleySpec
 namespace Driver
 open JaxleyVerif JaxleyVerif.Model JaxleyVerif.Model.SolveJaxley
 
@@ -22,51 +22,6 @@ def takeLevels : Nat → List String → Option (List (List (Nat × Nat) × List
     let (p, r2) ← takePairs r1
     let (rest, r3) ← takeLevels k r2
     some ((c, p) :: rest, r3)
-
-/-! Boolean mirrors of `WF` and `Sat` of `Lemmas/SolveJaxleyGlobal.lean` (the hypotheses and the conclusion of `solve_correct`),
-evaluated on every captured schedule / result -/
-section checks
-variable {α : Type} [Add α] [Sub α] [Mul α] [Div α] [Neg α] [OfNat α 0] [OfNat α 1] [BEq α]
-
-def pairsC (sc : Sched) : List (Nat × Nat) := sc.childrenInLevel.flatten
-def pairsP (sc : Sched) : List (Nat × Nat) := sc.parentsInLevel.flatten
-def branchesOf (sc : Sched) : List Nat := sc.roots ++ (pairsC sc).map (·.1)
-def nodupB (l : List Nat) : Bool := l.eraseDups.length == l.length
-def bpOfChildB (sc : Sched) (b : Nat) : Option Nat := ((pairsC sc).find? (·.1 == b)).map (·.2)
-
-def wfB (ix : Idx) (sc : Sched) (st : St α) : Bool :=
-  let bs := branchesOf sc
-  let nl := sc.childrenInLevel.length
-  sc.childrenInLevel.length == sc.parentsInLevel.length
-  && bs.all (fun b => 1 ≤ ix.ncomp b && ix.cumsum b + ix.ncomp b ≤ ix.cumsum (b + 1))
-  && bs.all (fun b => bs.all (fun b' => b == b' || ix.cumsum (b + 1) ≤ ix.cumsum b' || ix.cumsum (b' + 1) ≤ ix.cumsum b))
-  && bs.all (fun b => (List.range (ix.paddedLast b - ix.last b)).all (fun t =>
-        let j := ix.last b + 1 + t
-        st.diags j == 1 && st.lowers j == 0 && st.solves j == 0 && st.uppers (j - 1) == 0 && st.uppers j == 0))
-  && nodupB bs && nodupB ((pairsP sc).map (·.1)) && nodupB ((pairsP sc).map (·.2))
-  && (List.range nl).all (fun k =>
-        (sc.childrenInLevel.getD k []).all (fun c => (sc.parentsInLevel.getD k []).any (fun q => q.2 == c.2))
-        && (sc.parentsInLevel.getD k []).all (fun q => (sc.childrenInLevel.getD k []).any (fun c => c.2 == q.2)))
-  && (sc.parentsInLevel.getD 0 []).all (fun q => sc.roots.contains q.1)
-  && (List.range nl).all (fun k => (sc.parentsInLevel.getD (k + 1) []).all (fun q => ((sc.childrenInLevel.getD k []).map (·.1)).contains q.1))
-
-def rowCompB (ix : Idx) (sc : Sched) (st : St α) (x z : Nat → α) (b i : Nat) : α :=
-  (if ix.first b < i then st.lowers i * x (i - 1) else 0) + st.diags i * x i
-  + (if i < ix.paddedLast b then st.uppers i * x (i + 1) else 0)
-  + (if i = ix.first b then (match bpOfChildB sc b with | some p => st.condC b * z p | none => 0) else 0)
-  + (if i = ix.last b then (match bpOfParent sc b with | some p => st.condP b * z p | none => 0) else 0)
-
-def rowBpB (ix : Idx) (sc : Sched) (st : St α) (x z : Nat → α) (p : Nat) : α :=
-  st.bpDiags p * z p
-  + (((pairsP sc).filter (·.2 == p)).map (fun q => st.weightP q.1 * x (ix.last q.1))).foldl (· + ·) 0
-  + ((childrenOfBp sc p).map (fun c => st.weightC c * x (ix.first c))).foldl (· + ·) 0
-
-def satB (ix : Idx) (sc : Sched) (st : St α) (x z : Nat → α) : Bool :=
-  (branchesOf sc).all (fun b => (List.range (ix.paddedLast b + 1 - ix.first b)).all (fun t =>
-      let i := ix.first b + t
-      rowCompB ix sc st x z b i == st.solves i))
-  && (pairsP sc).all (fun q => rowBpB ix sc st x z q.2 == st.bpSolves q.2)
-end checks
 
 /-- `jsolve <rat|float> total nb nbp  (nb+1) cumsum…  nb ncomp…  L {kc pairs kp pairs}×L  nr roots…  then the ten arrays, each
 preceded by its length`.  Answers the flat solution (as doubles) and, in exact arithmetic, whether it equals the abstract Hines
@@ -103,9 +58,11 @@ def runJSolve {α : Type} [Add α] [Sub α] [Mul α] [Div α] [Neg α] [OfNat α
         let spec : List (Nat × α) := specSolve ix sc st total (2 * total + 2 * cums.length + 4)
         let agree := spec.all (fun (p : Nat × α) => p.1 ≥ total || out.solves p.1 == p.2)
         let nspec := (spec.filter (fun (p : Nat × α) => p.1 < total)).length
-        let wf := wfB ix sc st
+        let wf := wfB ix sc
+        let pad := padB ix sc st
+        let piv := pivOkB ix sc st
         let sat := satB ix sc st out.solves (fun p => out.bpSolves p / out.bpDiags p)
-        some (s!"ok exact={if agree then 1 else 0} wf={if wf then 1 else 0} sat={if sat then 1 else 0} nspec={nspec} x=" ++ ",".intercalate (xs.map (fun x => fbits (toF x)))
+        some (s!"ok exact={if agree then 1 else 0} wf={if wf then 1 else 0} pad={if pad then 1 else 0} piv={if piv then 1 else 0} sat={if sat then 1 else 0} nspec={nspec} x=" ++ ",".intercalate (xs.map (fun x => fbits (toF x)))
               ++ " spec=" ++ ",".intercalate ((spec.filter (fun (p : Nat × α) => p.1 < total)).map (fun (p : Nat × α) => s!"{p.1}:{fbits (toF p.2)}")))).getD "bad-op"
     | _, _, _ => "bad-op"
   | _ => "bad-op"
